@@ -463,6 +463,41 @@ func checkWriteMethod(c *Checker, rg *Ranger, fn *ssa.Function) {
 	w := c.w
 	b := ssa.Value(fn.Params[1])
 	name := fnName(fn)
+	// every Flush a Write performs puts bytes on the wire that count as written: its count must reach
+	// the count Write reports (returned directly, or added to the running count)
+	nFl := 0
+	allInstrs(fn, func(in ssa.Instruction) {
+		call, ok := in.(*ssa.Call)
+		if !ok || !calleeNamed(call, "Flush") {
+			return
+		}
+		nFl++
+		var cnt *ssa.Extract
+		if call.Referrers() != nil {
+			for _, r := range *call.Referrers() {
+				if ex, ok := r.(*ssa.Extract); ok && ex.Index == 0 {
+					cnt = ex
+				}
+			}
+		}
+		used := false
+		if cnt != nil && cnt.Referrers() != nil {
+			for _, r := range *cnt.Referrers() {
+				switch x := r.(type) {
+				case *ssa.Return:
+					used = true
+				case *ssa.BinOp:
+					if x.Op == token.ADD {
+						used = true
+					}
+				case *ssa.Phi, *ssa.Store:
+					used = true
+				}
+			}
+		}
+		c.decide(used, "RDC-3", fmt.Sprintf("%s|flush-%d count is accounted", name, nFl), instrPos(call), "the count of this Flush is returned or added to the reported count",
+			"the plaintext count of a Flush is dropped: bytes that went out on the wire are reported as not written, so a caller that retries the remainder sends them twice")
+	})
 	allInstrs(fn, func(in ssa.Instruction) {
 		ret, ok := in.(*ssa.Return)
 		if !ok {
